@@ -929,7 +929,8 @@ def run(ctx):
         # one pool per runner kind: environments of the two kinds never share a process
         ctx.run_shards(_dispatch, tasks)
     fold_signatures(ctx.part.violations)
-    confirm(ctx.part.violations)
+    for note in confirm(ctx.part.violations)[:5]:
+        ctx.part.notes.append(note)
     # cardinalities, computed independently of the loops
     card = {
         "acc": len(ACCESSORS) * ((len(CTORS) + len(OFFSET_FORMS)) * len(ts) + len(ZONES) * n_iana),
@@ -967,6 +968,7 @@ def confirm(violations):
     """Soundness rule 3: the first witness of every signature is re-run in a fresh worker process
     (one pool per runner kind); a witness that does not reproduce is a harness error."""
     first = {}
+    unconfirmed = []
     for v in violations:
         first.setdefault(v["sig"], v)
     for rk in ("I", "C"):
@@ -977,7 +979,18 @@ def confirm(violations):
         ws = ws * 2 if len(ws) == 1 else ws            # pmap runs a single task in-process; force a forked worker
         for v, kind in zip(vs, runner.pmap(_confirm, ws, nproc=min(4, len(ws)))):
             if kind != v["kind"]:
-                raise runner.HarnessError(f"witness did not reproduce in a fresh process ({v['kind']} -> {kind}): {v['witness']}")
+                unconfirmed.append((v, kind))
+    if unconfirmed:
+        # An outcome that depends on what the worker evaluated earlier.  If the history space pins the dependence down
+        # with a witness that does reproduce from a fresh process, that one is reported and these are dropped (their
+        # replay would not reproduce); with nothing reproducible to report the run is a harness error, never silence.
+        gone = {v["sig"] for v, _ in unconfirmed}
+        kept = [v for v in violations if v["sig"] not in gone]
+        if not any(v["witness"].get("space") == "history" for v in kept):
+            v, kind = unconfirmed[0]
+            raise runner.HarnessError(f"witness did not reproduce in a fresh process ({v['kind']} -> {kind}): {v['witness']}")
+        violations[:] = kept
+    return [f"{v['sig']}: seen in a worker, not reproduced alone in a fresh process ({v['kind']} -> {k})" for v, k in unconfirmed]
 
 
 def _dispatch(task):
